@@ -251,6 +251,28 @@ func c13(c *core.Ctx) {
 			}
 			c.Check(okJoin, key+":join-caller-first", noc.Pos(), "Join(caller's outgoing metadata, credential metadata)", "caller's outgoing metadata is not joined (first) with the credential metadata: the caller's keys would be lost or reordered")
 			c.Check(okNew, key+":new-when-none", noc.Pos(), "metadata.New(md) when the caller had none", "no metadata.New path for a caller without metadata")
+			// whatever is attached contains the caller's own metadata on every path: a value that is not the Join with
+			// the caller's is attached only where the caller was found to have none (the !ok edge of FromOutgoingContext)
+			okAlways := true
+			for _, nc := range nocs {
+				for _, l := range core.ErrLeaves(nc.Call.Args[1], nc) {
+					call, _, isCall := core.CallResult(l.V)
+					if isCall && core.InfoOf(&call.Call).Is(metadataPkg+".Join") {
+						continue
+					}
+					if !core.LeafGuarded(l, func(f core.Fact) bool {
+						ex, isEx := f.X.(*ssa.Extract)
+						if !isEx || ex.Index != 1 || f.Op != token.ILLEGAL || !f.Neg {
+							return false
+						}
+						fc, isC := ex.Tuple.(*ssa.Call)
+						return isC && core.InfoOf(&fc.Call).Is(metadataPkg+".FromOutgoingContext")
+					}) {
+						okAlways = false
+					}
+				}
+			}
+			c.Check(okAlways, key+":caller-metadata-kept-on-every-path", noc.Pos(), "a metadata set without the caller's entries is attached only where the caller had none", "on some path the context gets a metadata set that does not contain the caller's own outgoing metadata although the caller may have some (e.g. when the credential returns an empty map): the caller's metadata is wiped")
 			// returned ctx on that path is the NewOutgoingContext result
 			retOK := false
 			for _, r := range core.Returns(apply) {
@@ -449,7 +471,7 @@ func c13(c *core.Ctx) {
 				if !isF {
 					return
 				}
-				if f == "Addr" && core.OriginIs(st.Val, func(o ssa.Value) bool { _, ff, ok := core.FieldOf(o); return ok && ff == "RemoteAddr" }) {
+				if f == "Addr" && core.AllOrigins(st.Val, func(o ssa.Value) bool { _, ff, ok := core.FieldOf(o); return ok && ff == "RemoteAddr" }) {
 					okAddr = true
 				}
 				if f == "AuthInfo" && core.GuardedExactlyBy(st, func(fc core.Fact) bool {
@@ -462,7 +484,7 @@ func c13(c *core.Ctx) {
 					okAuth = true
 				}
 			})
-			c.Check(okAddr, key+":addr", peerFromReq.Pos(), "Addr from r.RemoteAddr", "peer address is not taken from r.RemoteAddr")
+			c.Check(okAddr, key+":addr", peerFromReq.Pos(), "Addr from r.RemoteAddr on every path", "the peer address is not (on every path) the connection's r.RemoteAddr: something a client can put into a header (e.g. X-Forwarded-For, which is plain caller metadata here) decides what the handler sees as its peer")
 			c.Check(okAuth, key+":authinfo", peerFromReq.Pos(), "AuthInfo on the r.TLS != nil edge", "AuthInfo is not set from r.TLS on exactly the r.TLS != nil edge (missing, or subject to a further condition): TLS connections would be reported without auth info")
 			for _, hc := range httpHandlerClosures(p) {
 				k := core.FuncName(hc.Fn) + ":peer-attached"
